@@ -19,6 +19,13 @@ fn main() {
         usage();
     }
     let id = args[1].clone();
+    if id == "raw" {
+        let text = args[2].replace("\\n", "\n");
+        println!("{:#?}", vh::raw::raw_events(&text).map(|v| v.into_iter().map(|e| format!("{:?} @{}:{}..{}:{}", e.ev, e.start.line, e.start.col, e.end.line, e.end.col)).collect::<Vec<_>>()));
+        println!("Tree: {:?}", serde_saphyr::from_str::<vh::tree::Tree>(&text).map_err(|e| e.to_string()));
+        println!("String: {:?}", serde_saphyr::from_str::<String>(&text).map_err(|e| e.to_string()));
+        return;
+    }
     let mut tier = match std::env::var("VERIF_TIER").ok().as_deref() {
         Some("thorough") => Tier::Thorough,
         _ => Tier::Quick,
